@@ -417,6 +417,7 @@ func runC06(c *Ctx) {
 	e.emit(RG)
 	untrustedStructPkgs = saved
 	noExitRule(c, []string{"formats.(*Sniffer).SniffReader", "formats.(*Sniffer).SniffFile"})
+	nilMapWriteRule(c, []string{"formats.(*Sniffer).SniffReader", "formats.(*Sniffer).SniffFile"})
 	singleDispatch(c)
 	o := newOrigins(c.P)
 	infos := stateDiscipline(c, "package-state", []string{"pkg/formats"}, o)
